@@ -262,6 +262,30 @@ def systematic_corner():
         out.append(case(Fw, cross(full, X, [K("Exclude", f=3, l=1)], False), "B", ["weights-uncrossed", "Exclude-derived", xn], "cor-wu-%s-exd" % xn))
         out.append(case(Fw, cross(full, X, [K("AtMostKInARow", k=1, f=3, l=1)]), "B", ["weights-uncrossed", "AtMostK-derived", xn], "cor-wu-%s-atmostd" % xn))
     out.append(case(Fw, cross([1, 2], [1], [K("MinimumTrials", k=3)]), "B", ["weights-uncrossed", "MinimumTrials"], "cor-wu-min3"))
+    # Pin / ExactlyK / Exclude on a Transition factor (no level at trial 0)
+    for X, xn in [([1, 2], "x12"), ([1, 4], "x14"), ([1], "x1")]:
+        for i in (0, 1, 2, -1):
+            out.append(case(F, cross(full, X, [K("Pin", i=i, f=4, l=1)]), "B", ["Pin", "complex-factor"], "cor-%s-pinT%d" % (xn, i)))
+        for k in (1, 2):
+            out.append(case(F, cross(full, X, [K("ExactlyK", k=k, f=4, l=1)]), "B", ["ExactlyK", "complex-factor"], "cor-%s-exkT%d" % (xn, k)))
+        out.append(case(F, cross(full, X, [K("Exclude", f=4, l=1)], False), "B", ["Exclude", "complex-factor"], "cor-%s-exclT" % xn))
+    # constraints on strided factors and on windows that start later than their default
+    B = [basic("a", 2), basic("b", 2)]
+    for width in (1, 2):
+        f = derived(B, "d", [1], "window", width=width, stride=2, table=eq_table(B, [1], width) if width > 1 else [[[1]], [[2]]])
+        for cn, con in [("atmost1", K("AtMostKInARow", k=1, f=3, l=1)), ("atleast2", K("AtLeastKInARow", k=2, f=3, l=1)),
+                        ("exrow1", K("ExactlyKInARow", k=1, f=3, l=1)), ("exk1", K("ExactlyK", k=1, f=3, l=1)),
+                        ("pin0", K("Pin", i=0, f=3, l=1)), ("pin1", K("Pin", i=1, f=3, l=1)), ("pin2", K("Pin", i=2, f=3, l=1)),
+                        ("excl", K("Exclude", f=3, l=1))]:
+            out.append(case(B + [f], cross([1, 2, 3], [1, 2], [con, K("MinimumTrials", k=6)], cn != "excl"), "B",
+                            ["stride", cn] + (["run-length-on-stride"] if cn in ("atmost1", "atleast2", "exrow1") else []),
+                            "cor-stride2-w%d-%s" % (width, cn)))
+    for start in (2, 3):
+        f = derived(B, "d", [1], "window", width=2, start=start, table=eq_table(B, [1], 2))
+        for cn, con in [("atmost1", K("AtMostKInARow", k=1, f=3, l=1)), ("exk1", K("ExactlyK", k=1, f=3, l=1)),
+                        ("pin0", K("Pin", i=0, f=3, l=1)), ("pin-1", K("Pin", i=-1, f=3, l=1)), ("pin2", K("Pin", i=2, f=3, l=1))]:
+            out.append(case(B + [f], cross([1, 2, 3], [1, 2], [con, K("MinimumTrials", k=6)]), "B", ["late-start", cn], "cor-start%d-%s" % (start, cn)))
+            out.append(case(B + [f], cross([1, 2, 3], [2, 3], [con]), "B", ["late-start", "crossed", cn], "cor-start%d-x-%s" % (start, cn)))
     # MinimumTrials below the crossing size, equal to it, 1
     for m in (1, 3, 4):
         out.append(case(F, cross(full, [1, 2], [K("MinimumTrials", k=m)]), "B", ["MinimumTrials", "small"], "cor-min%d" % m))
